@@ -753,7 +753,7 @@ func c15Worker(e *Env) *res.Result {
 	dir := filepath.Join(e.Scratch, "c15")
 	os.MkdirAll(dir, 0o755)
 	seeds := c15Seeds(e)
-	n := 100
+	n := 300
 	if !e.Quick() {
 		n = 3000
 	}
